@@ -1399,12 +1399,13 @@ def class_cases(jobs):
                 ann = "object" if d["t"] == 1 else f"K{d['t']}"
                 if d["marked"]:
                     lines.append("    @extend_super")
-                lines.append(f"    def f(self, x: {ann}):")
-                lines.append(f"        _e = [{d['id']!r}, x, None, self]")
+                pn = d.get("pn", "x")
+                lines.append(f"    def f(self, {pn}: {ann}):")
+                lines.append(f"        _e = [{d['id']!r}, {pn}, None, self]")
                 lines.append("        LOG.append(_e)")
                 if d["body"] == "next":
-                    lines.append("        _e[2] = ('next', x)")
-                    lines.append("        return call_next(x)")
+                    lines.append(f"        _e[2] = ('next', {pn})")
+                    lines.append(f"        return call_next({pn})")
                 elif isinstance(d["body"], dict):
                     z = d["body"]["to"]
                     lines.append("        if BUDGET[0] <= 0:")
@@ -1434,12 +1435,19 @@ def class_cases(jobs):
                     inst = cls_()
                 except Exception:
                     continue
-                for a in job["args"]:
+                names = sorted({d.get("pn", "x") for d in bodies.values()})
+                modes = [""] + (names if names != ["x"] else [])
+                for a, bykw in [(a, n_) for n_ in modes for a in job["args"]]:
                     del log[:]
                     ns["BUDGET"][0] = 2
                     obs = {"resolve": {"kind": "skip", "m": ""}, "slf": "ok"}
                     try:
-                        inst.f(ns["ARGS"][a])
+                        if bykw:
+                            # the dispatched parameter given by keyword (judged only when every method of the
+                            # class's overload set calls it that)
+                            inst.f(**{bykw: ns["ARGS"][a]})
+                        else:
+                            inst.f(ns["ARGS"][a])
                         obs["kind"] = "run"
                     except BaseException as e:  # noqa
                         obs["kind"] = classify(e)
@@ -1456,7 +1464,7 @@ def class_cases(jobs):
                             nd = {"has": True, "via": nxt[0], "call": {"pos": [{"c": clsid.get(type(nxt[1]), 0)}], "kwn": [], "kwa": []}}
                         ent.append({"m": mid, "call": c1, "next": nd})
                     obs["entered"] = ent
-                    steps.append({"op": "probe", "host": j, "after": k, "call": {"pos": [{"c": a}], "kwn": [], "kwa": []}, "obs": obs})
+                    steps.append({"op": "probe", "host": j, "after": k, "bykw": bykw, "call": {"pos": [{"c": a}], "kwn": [], "kwa": []}, "obs": obs})
         for kk in [kk for kk in linecache.cache if kk.startswith("<ovld:") or kk.startswith("<vf:")]:
             del linecache.cache[kk]
         out.append({"id": job["id"], "props": ["C17"], "world": w, "steps": steps})
